@@ -4,11 +4,7 @@
    theorems of Sha256Proofs / Sha1Proofs / Md5Proofs / HmacProofs / Pbkdf2Proofs.
    Every table equality is by vm_compute and is used below: a changed table breaks this file. *)
 From Coq Require Import Arith NArith ZArith List Lia.
-From LCP Require Import Base.CheckedMem Gen.Repo_hash Alg.Words Alg.WordsProofs Alg.MDSpec Alg.MDModel
-     Alg.Sha256Spec Alg.Sha256Model Alg.Sha256Proofs Alg.MD32Model Alg.MD32Proofs
-     Alg.Sha1Spec Alg.Sha1Model Alg.Sha1Proofs Alg.Md5Spec Alg.Md5Model Alg.Md5Proofs
-     Alg.HmacSpec Alg.HmacModel Alg.HmacProofs Alg.Pbkdf2Spec Alg.Pbkdf2Model Alg.Pbkdf2Proofs
-     Alg.HashSpecs Alg.HashRepo.
+From LCP Require Import Base.CheckedMem Gen.Repo_hash Alg.Words Alg.WordsProofs Alg.MDSpec Alg.MDModel Alg.Sha256Spec Alg.Sha256Model Alg.Sha256Proofs Alg.MD32Model Alg.MD32Proofs Alg.Sha1Spec Alg.Sha1Model Alg.Sha1Proofs Alg.Md5Spec Alg.Md5Model Alg.Md5Proofs Alg.HmacSpec Alg.HmacModel Alg.HmacProofs Alg.Pbkdf2Spec Alg.Pbkdf2Model Alg.Pbkdf2Proofs Alg.HashSpecs Alg.HashRepo.
 Import ListNotations.
 Local Open Scope N_scope.
 
